@@ -376,6 +376,12 @@ func (r *Result) Canon() string {
 }
 
 func (r *Result) CanonWith(posMap func(file string, p hcl.Pos) hcl.Pos) string {
+	return r.CanonOpts(deep.Options{PosMap: posMap}, false)
+}
+
+// CanonOpts: canonical text under walker options; errTypeOnly prints only the
+// dynamic type of an error (messages embed positions).
+func (r *Result) CanonOpts(o deep.Options, errTypeOnly bool) string {
 	var b strings.Builder
 	if r.Budget {
 		return "BUDGET"
@@ -383,7 +389,6 @@ func (r *Result) CanonWith(posMap func(file string, p hcl.Pos) hcl.Pos) string {
 	if r.Panic != nil {
 		return "PANIC:" + r.Panic.Class + "@" + r.Panic.Func
 	}
-	o := deep.Options{PosMap: posMap}
 	switch v := r.Val.(type) {
 	case hcl.Diagnostics:
 		b.WriteString(canonDiags(v, o))
@@ -404,7 +409,11 @@ func (r *Result) CanonWith(posMap func(file string, p hcl.Pos) hcl.Pos) string {
 		}
 	}
 	if r.Err != nil {
-		b.WriteString(" ERR=" + errString(r.Err))
+		if errTypeOnly {
+			b.WriteString(fmt.Sprintf(" ERR=%T", r.Err))
+		} else {
+			b.WriteString(" ERR=" + errString(r.Err))
+		}
 	}
 	return b.String()
 }
